@@ -1,4 +1,12 @@
-(* C06 — Equal decides structural equality (v5). *)
+(* C06 — Equal decides structural equality (v5).
+   DOMAIN: every theorem below about texts needs tnodup: the texts have no repeated member name in any
+   object (C06_equal_spec asks it of whatever the two texts parse to; C06_node_equal asks nwf of the
+   nodes, which contains it).  With a repeated name Equal follows Go-map semantics: decoding into a
+   map keeps the LAST value of the name, so Equal compares the deduplicated values; jeq on den (an
+   association list with the repetition still in it) does not express that, and reflexivity,
+   symmetry and transitivity are not proved for such texts.  There the correspondence judges Equal
+   on every run against jeq of the DEDUPLICATED values (last occurrence wins).
+   C06_malformed_false and C06_null_only_null need no such hypothesis. *)
 From JP Require Import Bytes Json Text Strings Den ImplV5 JsonFacts Abs EqualFacts ParseFacts.
 
 (* the comparison of two nodes in ANY parse state (raw, half parsed, fully parsed) is structural
